@@ -148,6 +148,8 @@ def run(ctx):
     ctx.explanation = __doc__
     ctx.rule = "instances = table facts, parse/evaluate call sites of the three functions with their per-element context, path facts of the per-element bodies, constructed values; non-trivial = needs CFG path reasoning or provenance"
     ctx.trusted = ["rustc MIR", "C06 for the truthiness table itself"]
+    from . import manifest as _MF
+    _MF.same_library_clause(ctx, "K4.number-model")
     cfgs = ["default"] if ctx.tier == "quick" else ["default", "python", "wasm"]
     for cfg in cfgs:
         facts = ctx.facts(cfg)
